@@ -303,7 +303,7 @@ private theorem all_within (k : Kind) (rc : RCfg) (cons : Cons) (hp : Premises k
       · exact all_within k rc cons hp os s' hs' hm' x hx
   | .collect a :: os, s, hs, hm => by
     have hm' : ∀ st, ROp.mutate st ∈ os → StoreOK k st := fun st h => hm st (by simp [h])
-    simp only [RewardEpoch.run, epochOuts]
+    simp only [RewardEpoch.run]
     cases hc : collect s.cs a with
     | none => simp only [RewardEpoch.step, hc, epochOuts]; exact all_within k rc cons hp os s hs hm'
     | some r => simp only [RewardEpoch.step, hc, epochOuts]; exact all_within k rc cons hp os _ hs hm'
@@ -477,5 +477,138 @@ theorem total_minted_le_total_emission (k : Kind) (rc : RCfg) (cons : Cons) (hp 
   have ez : (allCredits (run k rc cons s ops).2).map (fun x => Coins.znn x.2) = (allCredits (run k rc cons s ops).2).map (fun x => x.2.znn) := rfl
   simp only [sumZ, sumQ] at t1 t2
   constructor <;> omega
+
+/-! ### "a function of the chain alone": order independence -/
+
+private theorem perm_sum_int {l₁ l₂ : List Int} (h : l₁.Perm l₂) : l₁.sum = l₂.sum := by
+  induction h with
+  | nil => rfl
+  | cons _ _ ih => simp [ih]
+  | swap => simp only [List.sum_cons]; omega
+  | trans _ _ ih₁ ih₂ => rw [ih₁, ih₂]
+
+/-- the effect of a list of `addReward` calls on any account depends only on the multiset of calls -/
+theorem deposit_effect_order_independent (a : Addr) {cs cs' : List Credit} (h : cs.Perm cs') :
+    creditedTo a cs = creditedTo a cs' := by
+  induction h with
+  | nil => rfl
+  | cons x _ ih => simp only [creditedTo, List.foldr_cons] at ih ⊢; rw [ih]
+  | swap x y l =>
+    simp only [creditedTo, List.foldr_cons]
+    rw [← Coins.add_assoc', ← Coins.add_assoc', Coins.add_comm' (if y.1 = a then y.2 else Coins.zero)]
+  | trans _ _ ih₁ ih₂ => rw [ih₁, ih₂]
+
+/-- stake (and, same shape, liquidity stake) entries: the storage iteration order does not matter. The cumulated
+    weight is a sum and every entry's share is computed from its own weight and that sum, so a permuted entry list
+    yields the permuted credit list (hence the same deposits: `deposit_effect_order_independent`). -/
+theorem credited_order_independent (c : Cfg) (e : Nat) {es es' : List StakeEntry} (h : es.Perm es') :
+    match stakeCredits c es e, stakeCredits c es' e with
+    | some x, some y => x.Perm y
+    | none, none => True
+    | _, _ => False := by
+  unfold stakeCredits
+  cases stakeQsrRewardPerEpoch e with
+  | none => trivial
+  | some T =>
+    simp only
+    have hs : (es.map (stakeW c e)).sum = (es'.map (stakeW c e)).sum := perm_sum_int (h.map _)
+    rw [hs]
+    by_cases h0 : (es'.map (stakeW c e)).sum = 0
+    · simp [h0]
+    · simp only [h0, if_false]
+      exact h.map _
+
+/-- the two Go `range`s over maps in the reward code (`range pillarDetail.Backers`, and `range details`, each iteration
+    of which only calls addReward): the backers' credits of a pillar for a permuted backer list are the permuted
+    credits — `backersAmount` is a sum, each share depends on the backer's own amount and that sum -/
+theorem backer_credits_order_independent (infos : List PillarInfo) (name : String) (tb : Int)
+    {bs bs' : List (Addr × Nat)} (h : bs.Perm bs') :
+    (backerCredits infos name tb bs).Perm (backerCredits infos name tb bs') := by
+  unfold backerCredits
+  simp only
+  have hs : (bs.map (fun b => (b.2 : Int))).sum = (bs'.map (fun b => (b.2 : Int))).sum := perm_sum_int (h.map _)
+  rw [hs]
+  split
+  · exact List.Perm.refl _
+  · exact h.map _
+
+/-! ### premises: what is a theorem elsewhere, what the bound really needs -/
+
+/-- the statistics object consensus/api.go `EpochStats` builds from an epoch point -/
+def statsOfPoint (names : Nat → String) (pt : Points.Point) : EpochStats :=
+  ⟨pt.pillars.map (fun x => (names x.1, ⟨x.2.factual, x.2.expected, (x.2.weight : Int)⟩)), (pt.total : Int)⟩
+
+/-- premise `weights_le_total` (and `weight_nonneg`) is a THEOREM when the statistics come from an epoch point built by
+    `Points.compound` (the aggregation `generatePointFromLower`): `C11Points.epoch_point_total` -/
+theorem weights_premise_of_point (names : Nat → String) (lowers : List Points.Point) :
+    ((statsOfPoint names (Points.compound lowers)).pillars.map (fun x => x.2.weight)).sum ≤
+      (statsOfPoint names (Points.compound lowers)).totalWeight ∧
+    ∀ x ∈ (statsOfPoint names (Points.compound lowers)).pillars, 0 ≤ x.2.weight := by
+  have h := C11Points.epoch_point_total lowers
+  constructor
+  · unfold statsOfPoint
+    simp only [List.map_map, Function.comp_def]
+    rw [h]
+    generalize (Points.compound lowers).pillars = ps
+    induction ps with
+    | nil => simp
+    | cons x xs ih => simp only [List.map_cons, List.sum_cons, Int.natCast_add] at ih ⊢; omega
+  · intro x hx
+    unfold statsOfPoint at hx
+    obtain ⟨y, _, rfl⟩ := List.mem_map.mp hx
+    exact Int.natCast_nonneg _
+
+/-- premise `expected_le_slots` reduces to the period points: an epoch of `k` period points each expecting at most `n`
+    momentums expects at most `k·n` (`C11Points.epoch_point_expects_once`) -/
+theorem expected_premise_of_point (names : Nat → String) (lowers : List Points.Point) (n : Nat)
+    (h : ∀ l ∈ lowers, Points.sumExpected l.pillars ≤ n) :
+    ((statsOfPoint names (Points.compound lowers)).pillars.map (fun x => x.2.expected)).sum ≤ lowers.length * n := by
+  have e : ((statsOfPoint names (Points.compound lowers)).pillars.map (fun x => x.2.expected)).sum =
+      Points.sumExpected (Points.compound lowers).pillars := by
+    unfold statsOfPoint Points.sumExpected
+    simp [List.map_map, Function.comp_def]
+  rw [e, C11Points.epoch_point_expects_once]
+  clear e
+  induction lowers with
+  | nil => simp
+  | cons l rest ih =>
+    have h1 := h l (by simp)
+    have h2 := ih (fun x hx => h x (by simp [hx]))
+    simp only [List.map_cons, List.sum_cons, List.length_cons]
+    rw [Nat.add_mul]
+    omega
+
+/-- negative witness: the premise "the delegation record is a map (distinct pillar names)" is NECESSARY — a record
+    naming the same pillar twice pays its backers' part twice and the epoch exceeds the emission -/
+theorem pillar_bound_needs_distinct_delegation_names :
+    ∃ (infos : List PillarInfo) (st : EpochStats) (dl : Delegs) (ic : List ICredit),
+      pillarCredits 1 infos st dl 0 = some ic ∧
+      (∀ x ∈ st.pillars, x.2.produced ≤ x.2.expected) ∧ (st.pillars.map (fun x => x.2.weight)).sum ≤ st.totalWeight ∧
+      ¬ (dl.map (fun x => x.1)).Nodup ∧
+      ∃ d p, pillarPerMomentum 1 0 = some (d, p) ∧ ¬ isumZ ic ≤ (d + p) * 1 :=
+  ⟨[⟨"p", "w", 100, 100⟩], ⟨[("p", ⟨1, 1, 1⟩)], 1⟩, [("p", [("b", 1)]), ("p", [("b", 1)])], _, rfl,
+    by decide, by decide, by decide, _, _, rfl, by decide⟩
+
+/-! ### non-vacuity -/
+
+/-- two stake entries, the second one cancelled in the middle of epoch 0 of a 100-second-epoch chain: the epoch's QSR
+    is split 2:1, the cancelled entry is deleted -/
+example :
+    let c : Cfg := ⟨0, 100, 0, 1, 20, by decide⟩
+    let es : List StakeEntry := [⟨"a", -50, 0, 10⟩, ⟨"b", -50, 50, 10⟩]
+    (stakeCredits c es 0).map (fun l => l.map (fun x => x.2.2)) = some [666666666666, 333333333333] ∧
+      stakeAfter c es 0 = [⟨"a", -50, 0, 10⟩] := by decide
+
+/-- a pillar that produced 1 of 2 expected momentums, gives 50% / 100%, three backers leaving truncation remainders;
+    hypotheses of `pillar_epoch_within_emission` hold for it -/
+example :
+    let infos : List PillarInfo := [⟨"p", "w", 50, 100⟩]
+    let st : EpochStats := ⟨[("p", ⟨1, 2, 7⟩)], 7⟩
+    let dl : Delegs := [("p", [("x", 1), ("y", 1), ("z", 1)])]
+    ConsOK 2 st dl ∧ (infos.map (fun i => i.name)).Nodup ∧ (pillarCredits 2 infos st dl 0).isSome = true :=
+  ⟨⟨by decide, by decide, by decide, by decide, by decide⟩, by decide, by decide⟩
+
+example : Premises .stake (RCfg.live 0) ⟨fun _ => ⟨[], 0⟩, fun _ => []⟩ :=
+  ⟨by decide, by decide, by decide, fun h => by cases h⟩
 
 end ZV.C11Epoch
